@@ -225,6 +225,50 @@ def anchor_table(ctx: Ctx):
         ctx.held("anchor-table", where, f"{len(cases)} anchor spellings normalise as specified", "None / stale -> bottom, numeric string parsed, case folded")
 
 
+def id_assignment_table(ctx: Ctx, st, m, body):
+    """DECTAB over insertion lists that MIX id-carrying and id-less insertions, for both origins: an id-less insertion gets
+    its display rank from the position crosswalk when defined on the variable (view), its 1-based DEFINITION POSITION among
+    all valid insertions when defined in the analysis; insertions carrying an id are handed on untouched."""
+    from ..dectab import DTop, ModelInterp, Raises
+
+    where = f"{DIM}::_Subtotals._valid_subtotal_dicts_with_ids [table]"
+    lists = [[], [{"id": 3, "n": "a"}, {"id": 4, "n": "b"}], [{"n": "a"}], [{"n": "a"}, {"n": "b"}], [{"id": 7, "n": "a"}, {"n": "b"}, {"n": "c"}], [{"n": "a"}, {"id": 9, "n": "b"}, {"n": "c"}]]
+    bad, n = [], 0
+
+    class _I(ModelInterp):
+        def _call(self, c, it):
+            if u(c.func) == "self._position_crosswalk":
+                return {i: 100 + i for i in range(10)}
+            return super()._call(c, it)
+
+    try:
+        for dicts in lists:
+            for from_view in (True, False):
+                def atoms(x, dicts=dicts, from_view=from_view):
+                    t = u(x)
+                    if t in ("self._iter_valid_subtotal_dicts()", "list(self._iter_valid_subtotal_dicts())", "tuple(self._iter_valid_subtotal_dicts())"):
+                        return [dict(d) for d in dicts]
+                    if t == "self._from_view":
+                        return from_view
+                    raise KeyError
+
+                want_v = [d if "id" in d else {**d, "id": (100 + i) if from_view else (i + 1)} for i, d in enumerate(dicts)]
+                n += 1
+                try:
+                    got = [dict(x) for x in _I(atoms).ev(body)]
+                except Raises as r:
+                    bad.append(f"{'view' if from_view else 'analysis'} {dicts}: raises {r.etype}")
+                    continue
+                if got != want_v:
+                    bad.append(f"{'view' if from_view else 'analysis'} insertions {[d.get('id', '-') for d in dicts]}: ids {[d.get('id') for d in got]}, specified {[d.get('id') for d in want_v]}")
+    except DTop as t:
+        ctx.undecided("id-assignment.table", where, "DECTAB: " + str(t), "ids of id-less insertions")
+        return
+    ctx.count("id-assignment models", n)
+    ctx.ob("id-assignment.table", where, bad[:3] or f"{n} (insertion list, origin) models", "view: crosswalk[position]; analysis: 1-based definition position among ALL valid insertions; given ids untouched", not bad,
+           "an id-less insertion defined after an id-carrying one is numbered by its rank among the id-less ones: its `ins_N` rendering and code change")
+
+
 def id_assignment(ctx: Ctx):
     st = ctx.repo.cls(DIM, "_Subtotals")
     m = ctx.repo.lookup(st, "_valid_subtotal_dicts_with_ids")
@@ -235,6 +279,7 @@ def id_assignment(ctx: Ctx):
         ("not all(('id' in ins for ins in list(self._iter_valid_subtotal_dicts()))) & self._from_view", "[ins if 'id' in ins else {**ins, 'id': self._position_crosswalk(list(self._iter_valid_subtotal_dicts()))[idx]} for idx, ins in enumerate(list(self._iter_valid_subtotal_dicts()))]"),
         ("not all(('id' in ins for ins in list(self._iter_valid_subtotal_dicts()))) & not self._from_view", "[ins if 'id' in ins else {**ins, 'id': idx + 1} for idx, ins in enumerate(list(self._iter_valid_subtotal_dicts()))]"),
     ]
+    id_assignment_table(ctx, st, m, body)
     if leaves == want:
         ctx.held("id-assignment", f"{DIM}::_Subtotals._valid_subtotal_dicts_with_ids", leaves, want, "an id-less insertion is numbered by its 1-based display rank when defined on the variable and by its 1-based definition position when defined in the analysis (on a COPY of the dict)")
     else:
